@@ -35,6 +35,30 @@ def rejectOps : List Op :=
    .update 1 [.reject (1, 0) (some 0)] [],
    .schedule { sn := [{ rq := 0, v := 0, counts := [(2, 1)], taken := [(1, 0)] }] }]
 
+/-- **same instance id sent twice (multi-node task refused by its root; the transition added by the fix of F32)**: a
+multi-node task (one node) is placed on worker 1; worker 1 — the root — refuses it before it has started it;
+`task_reject` resets the reserved worker and requeues the task WITHOUT incrementing the instance id; the next round
+places it on worker 2 with the same instance id 0. -/
+def mnRejectOps : List Op :=
+  [.newWorker (wkr 1), .newWorker (wkr 2),
+   .newRq [{ nNodes := 1, entries := [] }],
+   .newTasks [ntk 0],
+   .schedule { mn := [{ rq := 0, sets := [[1]] }] },
+   .update 1 [.reject (1, 0) (some 0)] [],
+   .schedule { mn := [{ rq := 0, sets := [[2]] }] }]
+
+/-- **… but not after the start was announced**: the root reports Running (`started (1,0)` instance 0 is announced,
+the `started` flag of its record is set); a Reject from the root — or from anybody else — is then ignored: the task
+stays RunningMultiNode on worker 1 and is not sent again (the senders only get the request blocked). -/
+def mnRejectStartedOps : List Op :=
+  [.newWorker (wkr 1), .newWorker (wkr 2),
+   .newRq [{ nNodes := 1, entries := [] }],
+   .newTasks [ntk 0],
+   .schedule { mn := [{ rq := 0, sets := [[1]] }] },
+   .update 1 [.running (1, 0) 0] [],
+   .update 1 [.reject (1, 0) (some 0)] [],
+   .update 2 [.reject (1, 0) (some 0)] []]
+
 /-- **a task id submitted twice**: task 0 is submitted with instance 5, runs and finishes; the same id is submitted
 again with instance 0 and sent with instance 0 (the core accepts it: the first record left the map). -/
 def reuseOps : List Op :=
@@ -101,6 +125,16 @@ theorem resendOps_ok : RunOk OpOk4 {} resendOps ∧ NoIdReuse resendOps ∧
 
 theorem rejectOps_ok : RunOk OpOk4 {} rejectOps ∧ NoIdReuse rejectOps ∧
     runSends rejectOps = some ([((1, 0), 0), ((1, 0), 0)], []) := by decide
+
+theorem mnRejectOps_ok : RunOk OpOk4 {} mnRejectOps ∧ NoIdReuse mnRejectOps ∧
+    runSends mnRejectOps = some ([((1, 0), 0), ((1, 0), 0)], []) ∧
+    ((run {} (mnRejectOps.take 6)).toOption.map fun r => r.1.tasks.map fun t => (t.id, t.state, t.inst)) =
+      some [((1, 0), .waiting 0, 0)] := by decide
+
+theorem mnRejectStartedOps_ok : RunOk OpOk4 {} mnRejectStartedOps ∧ NoIdReuse mnRejectStartedOps ∧
+    runSends mnRejectStartedOps = some ([((1, 0), 0)], [((1, 0), 0)]) ∧
+    ((run {} mnRejectStartedOps).toOption.map fun r => r.1.tasks.map fun t => (t.id, t.state, t.inst)) =
+      some [((1, 0), .runningMN [1], 0)] := by decide
 
 theorem reuseOps_ok : RunOk OpOk4 {} reuseOps ∧ ¬ NoIdReuse reuseOps ∧
     runSends reuseOps = some ([((1, 0), 5), ((1, 0), 0)], []) := by decide
